@@ -67,9 +67,14 @@ func c20RU() atypes.ResourceUnits {
 	}
 }
 
-// c20Manifest builds a manifest that matches the on-chain groups; variant changes the content (and hash).
+// c20Manifest builds a manifest that matches the two on-chain groups "g" and "h"; variant changes
+// the content (and hash); count is the replica count of the service in group g.
 func c20Manifest(variant int, host string, count uint32, emptySvc bool) manifest.Manifest {
-	svc := manifest.Service{Name: "web", Image: fmt.Sprintf("img:%d", variant), Count: count, Resources: c20RU(),
+	return c20Manifest2(variant, host, count, 2, emptySvc)
+}
+
+func c20Manifest2(variant int, host string, countG, countH uint32, emptySvc bool) manifest.Manifest {
+	svc := manifest.Service{Name: "web", Image: fmt.Sprintf("img:%d", variant), Count: countG, Resources: c20RU(),
 		Expose: []manifest.ServiceExpose{{Port: 80, Proto: manifest.TCP, Global: true}}}
 	if host != "" {
 		svc.Expose[0].Hosts = []string{host}
@@ -78,7 +83,19 @@ func c20Manifest(variant int, host string, count uint32, emptySvc bool) manifest
 	if emptySvc {
 		g.Services = nil
 	}
-	return manifest.Manifest{g}
+	api := manifest.Service{Name: "api", Image: fmt.Sprintf("api:%d", variant), Count: countH, Resources: c20RU(),
+		Expose: []manifest.ServiceExpose{{Port: 80, Proto: manifest.TCP, Global: true}}}
+	h := manifest.Group{Name: "h", Services: []manifest.Service{api}}
+	return manifest.Manifest{g, h}
+}
+
+// c20SetHosts gives every ingress service of the manifest a free hostname of its own.
+func c20SetHosts(mf manifest.Manifest) {
+	for gi := range mf {
+		for si := range mf[gi].Services {
+			mf[gi].Services[si].Expose[0].Hosts = []string{fmt.Sprintf("free-%s.example.com", mf[gi].Services[si].Name)}
+		}
+	}
 }
 
 // c20Request builds the request exactly as service.Submit does, but does not depend on whether
@@ -165,8 +182,12 @@ func c20Machine(t *rapid.T, prop string) {
 				u.Endpoints = []atypes.Endpoint{{Kind: atypes.Endpoint_SHARED_HTTP}}
 				return u
 			}(), Count: 2, Price: sdk.NewInt64Coin("uakt", 1)}}}}
-		lease := func(i int) mtypes.LeaseID {
-			return mtypes.LeaseID{Owner: did.Owner, DSeq: did.DSeq, GSeq: 1, OSeq: uint32(i + 1), Provider: provider.String()}
+		hgroup := dgroup
+		hgroup.GroupID.GSeq = 2
+		hgroup.GroupSpec.Name = "h"
+		hgroup.GroupSpec.Resources = append([]dtypes.Resource(nil), dgroup.GroupSpec.Resources...)
+		lease := func(i int, gseq uint32) mtypes.LeaseID {
+			return mtypes.LeaseID{Owner: did.Owner, DSeq: did.DSeq, GSeq: gseq, OSeq: uint32(i + 1), Provider: provider.String()}
 		}
 
 		bus := pubsub.NewBus()
@@ -367,9 +388,14 @@ func c20Machine(t *rapid.T, prop string) {
 				if len(leases) >= 2 {
 					continue
 				}
-				l := lease(len(leases) + i*3)
-				note("lease-won(oseq=%d)", l.OSeq)
+				// the provider may hold leases for one or both groups of the deployment
+				gseq := uint32(rapid.IntRange(1, 2).Draw(t, "leaseGroup"))
+				l := lease(len(leases)+i*3, gseq)
+				note("lease-won(gseq=%d,oseq=%d)", l.GSeq, l.OSeq)
 				g := dgroup
+				if gseq == 2 {
+					g = hgroup
+				}
 				m.handleLease(event.LeaseWon{LeaseID: l, Group: &g, Price: sdk.NewInt64Coin("uakt", 1)})
 				leases = append(leases, l)
 				barrier("lease won")
@@ -405,7 +431,11 @@ func c20Machine(t *rapid.T, prop string) {
 				case "wrong-version":
 					mf = c20Manifest(7+nextSub, "", 2, false)
 				case "count-mismatch":
-					mf, valid = c20Manifest(0, "", 3, false), false
+					if rapid.Bool().Draw(t, "mismatchInOtherGroup") {
+						mf, valid = c20Manifest2(0, "", 2, 3, false), false
+					} else {
+						mf, valid = c20Manifest(0, "", 3, false), false
+					}
 				case "no-services":
 					mf, valid = c20Manifest(0, "", 2, true), false
 				case "hostname-clash":
@@ -413,7 +443,7 @@ func c20Machine(t *rapid.T, prop string) {
 				}
 				if svc.config.HTTPServicesRequireAtLeastOneHost && valid {
 					// every ingress service needs a host: give it a free one (changes the hash consistently below)
-					mf[0].Services[0].Expose[0].Hosts = []string{"free.example.com"}
+					c20SetHosts(mf)
 				}
 				h, _ := sdl.ManifestVersion(mf)
 				s := &c20Sub{id: nextSub, ch: make(chan error, 1), kind: kind, hash: h, valid: valid, m: mf}
@@ -442,7 +472,8 @@ func c20Machine(t *rapid.T, prop string) {
 					// the chain holds the version of the base manifest, or of the updated one if an update was seen
 					cv := v0
 					if svc.config.HTTPServicesRequireAtLeastOneHost {
-						mm := c20Manifest(0, "free.example.com", 2, false)
+						mm := c20Manifest(0, "", 2, false)
+						c20SetHosts(mm)
 						cv, _ = sdl.ManifestVersion(mm)
 					}
 					// sometimes the tenant recorded the hash of a manifest that does NOT fit the groups / clashes on a hostname:
@@ -454,7 +485,7 @@ func c20Machine(t *rapid.T, prop string) {
 					}
 					chainVersion = cv
 					note("fetch(ok)")
-					ch <- c20FetchResult{res: &dtypes.QueryDeploymentResponse{Deployment: dtypes.Deployment{DeploymentID: did, State: dtypes.DeploymentActive, Version: cv}, Groups: []dtypes.Group{dgroup}}}
+					ch <- c20FetchResult{res: &dtypes.QueryDeploymentResponse{Deployment: dtypes.Deployment{DeploymentID: did, State: dtypes.DeploymentActive, Version: cv}, Groups: []dtypes.Group{dgroup, hgroup}}}
 					dataState = "have"
 				} else {
 					note("fetch(error)")
@@ -481,7 +512,7 @@ func c20Machine(t *rapid.T, prop string) {
 				}
 				mm := c20Manifest(uv, "", 2, false)
 				if svc.config.HTTPServicesRequireAtLeastOneHost {
-					mm[0].Services[0].Expose[0].Hosts = []string{"free.example.com"}
+					c20SetHosts(mm)
 				}
 				nv, _ := sdl.ManifestVersion(mm)
 				note("version-updated(variant %d)", uv)
@@ -514,7 +545,7 @@ func c20Machine(t *rapid.T, prop string) {
 				}
 				mf := c20Manifest(cur, "", 2, false)
 				if svc.config.HTTPServicesRequireAtLeastOneHost {
-					mf[0].Services[0].Expose[0].Hosts = []string{"free.example.com"}
+					c20SetHosts(mf)
 				}
 				h, _ := sdl.ManifestVersion(mf)
 				if string(h) != string(expectedVersion()) {
@@ -545,7 +576,7 @@ func c20Machine(t *rapid.T, prop string) {
 				for k := 1; k <= 2; k++ {
 					mm := c20Manifest(maxVar+k, "", 2, false)
 					if svc.config.HTTPServicesRequireAtLeastOneHost {
-						mm[0].Services[0].Expose[0].Hosts = []string{"free.example.com"}
+						c20SetHosts(mm)
 					}
 					nv, _ := sdl.ManifestVersion(mm)
 					nvs = append(nvs, nv)
